@@ -257,9 +257,12 @@ def r8_4(cx):
             kinds['len-1'] = a
         elif is_buf_len(a):
             kinds['len'] = a
+        elif a.kind == 'binop' and a.op == 'Sub' and is_buf_len(a.a) and _trailing_flag(cx, a.b) is not None:
+            # len - usize::from(last == STUFF_SEQUENCE[0]): both alternatives in one expression
+            kinds['len-flag'] = a
         else:
             kinds['other:' + show(a)[:50]] = a
-    cx.check(set(kinds) == {'find', 'len-1', 'len'}, 'alternatives', fn, s.loc(), 'split_pos in {find_stuff_sequence(buf), len-1, len}',
+    cx.check(set(kinds) in ({'find', 'len-1', 'len'}, {'find', 'len-flag'}), 'alternatives', fn, s.loc(), 'split_pos in {find_stuff_sequence(buf), len-1, len}',
              fail_detail='split_pos alternatives are %s' % sorted(kinds))
     # guards of the len-1 / len alternatives
     g = {}
@@ -293,6 +296,9 @@ def r8_4(cx):
                     return True
             return False
         ok = tested(kinds['len'].pos.bb, False) and tested(kinds['len-1'].pos.bb, True)
+    flag_form = 'len-flag' in kinds
+    if flag_form:
+        ok = True       # (the subtraction of the flag is the wiring)
     cx.check(ok, 'trailing-FE', fn, None, 'len-1 exactly on the edge last == STUFF_SEQUENCE[0], len on the other edge',
              fail_detail='the hold-back of a trailing 0xFE is not wired to last == STUFF_SEQUENCE[0]')
     # only when find returned None
@@ -303,6 +309,15 @@ def r8_4(cx):
             for sblk, vals in fn.edge_values(b).items():
                 if 1 not in vals:
                     none_ok = g['edge'][0] in fn.reachable(sblk) and not any(g['edge'][0] in fn.reachable(s2) for s2, v2 in fn.edge_values(b).items() if 1 in v2)
+    if flag_form and kinds['len-flag'].pos is not None:
+        # the flag form is evaluated only on the None side of the search
+        for b in sorted(fn.live_blocks()):
+            e = fn.switch_expr(b)
+            if e is not None and e.kind == 'discr' and is_call(e.a, 'find_stuff_sequence'):
+                pb = kinds['len-flag'].pos.bb
+                some_t = [s2 for s2, v2 in fn.edge_values(b).items() if 1 in v2]
+                none_t = [s2 for s2, v2 in fn.edge_values(b).items() if 1 not in v2 and fn.term(s2)['k'] != 'unreachable']
+                none_ok = bool(none_t) and all(pb in fn.reachable(s2) | {s2} for s2 in none_t) and not any(pb in fn.reachable(s2, cut_blocks=[b]) | {s2} for s2 in some_t)
     cx.check(none_ok, 'find-first', fn, None, 'the trailing-byte test runs only when find_stuff_sequence returned None',
              fail_detail='a found stuff sequence can be overridden by the trailing-byte rule')
     # sentinel test
@@ -328,6 +343,28 @@ def r8_4(cx):
     from . import c02
     c02.check_find_stuff(cx)
     cx.check(len(kept) == 1, 'tail-kept', fn, None, 'self.buf := split_at(split_pos).1', fail_detail='the tail of the split is not what is kept for the next call')
+
+
+def _trailing_flag(cx, e):
+    """e is usize::from(b) / b as usize with b the trailing-byte test `last == STUFF_SEQUENCE[0]` (either spelling):
+    returns the test, else None"""
+    c = e.strip()
+    inner = None
+    if c.kind == 'call' and 'From<bool>' in c.op and len(c.args) == 1:
+        inner = c.args[0].strip()
+    if inner is None:
+        return None
+    seq0 = cx.prog.const_bytes('hcobs::STUFF_SEQUENCE').hex()[:2]
+    if inner.kind == 'call' and inner.op.endswith('::eq') and len(inner.args) == 2:
+        for x, y in ((inner.args[0].strip(), inner.args[1].strip()), (inner.args[1].strip(), inner.args[0].strip())):
+            if is_call(x, 'last') and x.args[0].has_call(ASLICE + '::slice') and y.kind == 'const' and 'Option<&u8>' in str(y.info.get('ty', '')) \
+                    and (y.info.get('ptr_to_bytes') or '')[:2] == seq0:
+                return inner
+    if inner.kind == 'binop' and inner.op == 'Eq':
+        for x, y in ((inner.a.strip(), inner.b.strip()), (inner.b.strip(), inner.a.strip())):
+            if x.has_call('last') and any(named_const(n, 'STUFF_SEQUENCE') for n in y.walk()) and y.kind == 'proj' and y.op == 'index' and y.b is not None and y.b.is_const_int(0):
+                return inner
+    return None
 
 
 def is_buf_len_arg(a):
